@@ -53,7 +53,7 @@ func extractSymbols(journal *ast.Journal, uri protocol.DocumentURI, query string
 					Kind: protocol.SymbolKindClass,
 					Location: protocol.Location{
 						URI:   uri,
-						Range: *astRangeToProtocol(d.Account.Range),
+						Range: *astRangeToProtocol(accountNameRange(&d.Account)),
 					},
 				})
 			}
@@ -64,7 +64,7 @@ func extractSymbols(journal *ast.Journal, uri protocol.DocumentURI, query string
 					Kind: protocol.SymbolKindEnum,
 					Location: protocol.Location{
 						URI:   uri,
-						Range: *astRangeToProtocol(d.Commodity.Range),
+						Range: *astRangeToProtocol(directiveCommodityRange(&d.Commodity)),
 					},
 				})
 			}
